@@ -511,6 +511,9 @@ func main() {
 
 	if one := os.Getenv("C11_INPUT"); one != "" { // developer aid: one input on the fixed world, verbose
 		spec := fixedWorld(os.Getenv("C11_NOBATCH") != "", 4)
+		if os.Getenv("C11_WORLD") == "faulty" {
+			spec = faultyWorld(3)
+		}
 		w, _ := NewWorld(spec)
 		_ = rn.setWorld(w)
 		line, _, _ := inLine([]byte(one))
